@@ -18,6 +18,9 @@ UNITS = [
          contract=f'RunState::step on `{op}` returns Ok or Err and never unwinds (every panic / todo!() / overflow / index check of the real body is an obligation)')
     for op in OPS
 ]
+UNITS.append(Kani(M + 'c25_step_restoresp_saved_beyond_stack', 'aranya-policy-vm', [Fn(F, 'step', IMPL)], kind='bounded',
+                  bound='one RestoreSP instruction, empty stack, any saved stack pointer >= 1 on the control stack', stubs=['format'], cap_s=600,
+                  contract='RestoreSP with a bytecode-controlled saved stack pointer beyond the stack is a machine error, never a panic'))
 TRUSTED = ['alloc::fmt::format stubbed to an empty string (error messages only)',
            'havoc MachineIO returns errors from every method']
 ASSUMPTIONS = ['only the listed opcodes on an empty stack are covered: multi-instruction sequences, non-empty stacks, heap-typed values, '
@@ -26,8 +29,8 @@ EXPLANATION = ('Bounded stand-in, not a proof of the property: one Kani harness 
                'program with an empty stack; panics, todo!(), arithmetic overflow and out-of-bounds indexing in the real body are the obligations. '
                'Operands of jump/branch/call targets are fully symbolic.')
 MANIFEST = {
-    'text': 'Bounded: per-opcode no-panic contract of RunState::step for 14 opcode kinds on a minimal run state (symbolic jump/call targets). '
-            'This found the todo!() in Next/Last (fixed). It is not a proof over instruction sequences; the evidence lists exactly what is covered.',
+    'text': 'Bounded: per-opcode no-panic contract of RunState::step for 15 opcode situations on a minimal run state (symbolic jump/call targets). '
+            'This found the todo!() in Next/Last (fixed); a second defect (MStructSet preallocation from an untrusted count) was found by reading, is fixed, and is beyond what the harnesses reach. It is not a proof over instruction sequences; the evidence lists exactly what is covered.',
     'note': 'Bounded stand-in (category other): one instruction, empty stack, error-returning MachineIO; fmt::format stubbed. Not counted as proved for the property as a whole.',
     'technique': 'Kani bounded contract harnesses (per opcode) + CBMC',
 }
